@@ -427,6 +427,23 @@ func checkC17(c *km.Ctx) {
 					}
 				}
 			}
+			// not "//": the second byte is not '/', or there is no second byte
+			if p == "//" && !pol {
+				if f.Op == token.NEQ {
+					if ix, isIx := f.X.(*ssa.Index); isIx {
+						if i, isI := km.ConstInt(ix.Index); isI && i == 1 && isInbound(ix.X) {
+							if ch, isC := km.ConstInt(f.Y); isC && ch == '/' {
+								return true
+							}
+						}
+					}
+				}
+				if lc, isL := f.X.(*ssa.Call); isL && km.CalleeFull(lc.Common()) == "builtin:len" && isInbound(lc.Common().Args[0]) {
+					if n, isC := km.ConstInt(f.Y); isC && ((f.Op == token.LEQ && n <= 1) || (f.Op == token.LSS && n <= 2) || (f.Op == token.EQL && n <= 1)) {
+						return true
+					}
+				}
+			}
 			cl, ok := f.X.(*ssa.Call)
 			if f.Op != token.ILLEGAL || f.Pol != pol || !ok || km.CalleeFull(cl.Common()) != "strings.HasPrefix" {
 				return false
@@ -436,6 +453,25 @@ func checkC17(c *km.Ctx) {
 		}}
 	}
 	noBackslash := km.Prim{Name: "no backslash before the query", Direct: func(f km.Fact) bool {
+		// the index of the first backslash is negative
+		if ic, isC := f.X.(*ssa.Call); isC && f.Y != nil {
+			n := km.CalleeFull(ic.Common())
+			k, isK := km.ConstInt(f.Y)
+			if isK && ((f.Op == token.LSS && k == 0) || (f.Op == token.EQL && k == -1) || (f.Op == token.LEQ && k == -1)) {
+				single := false
+				switch n {
+				case "strings.Index", "strings.IndexAny":
+					cs, isS := km.ConstString(ic.Common().Args[1])
+					single = isS && cs == "\\"
+				case "strings.IndexByte", "strings.IndexRune":
+					ch, isI := km.ConstInt(ic.Common().Args[1])
+					single = isI && ch == '\\'
+				}
+				if single {
+					return isInboundPathPart(ic.Common().Args[0], isInbound, 0)
+				}
+			}
+		}
 		cl, ok := f.X.(*ssa.Call)
 		if f.Op != token.ILLEGAL || f.Pol || !ok {
 			return false
@@ -671,10 +707,10 @@ func isInboundPathPart(v ssa.Value, isInbound func(ssa.Value) bool, depth int) b
 			switch km.CalleeFull(cl.Common()) {
 			case "strings.IndexAny", "strings.Index":
 				cs, isC := km.ConstString(cl.Common().Args[1])
-				return isC && cs == "?"
+				return isC && cs == "?" && isInboundPathPart(cl.Common().Args[0], isInbound, depth+1)
 			case "strings.IndexByte", "strings.IndexRune":
 				i, isI := km.ConstInt(cl.Common().Args[1])
-				return isI && i == '?'
+				return isI && i == '?' && isInboundPathPart(cl.Common().Args[0], isInbound, depth+1)
 			}
 		}
 	}
